@@ -3,7 +3,7 @@
    configurations carry one fault each: a cancelling or raising callback, a read
    failure, a refused thread start. *)
 From Coq Require Import Lia.
-From Torf Require Import Base Pipeline PipelineProofs PipeExplore PipeExploreProofs PipeConfigs.
+From Torf Require Import Base Pipeline PipelineProofs FlowProofs PipeExplore PipeExploreProofs PipeConfigs.
 Open Scope Z_scope.
 
 (* the callback cancels from the second piece on (3 pieces): under every schedule the call returns
@@ -26,6 +26,14 @@ Print Assumptions C04_read_failure.
 Theorem C04_optional_hasher_refused : all_schedules_ok G_refuse_hasher2 [1; 2] false [].
 Proof. exact G_refuse_hasher2_ok. Qed.
 Print Assumptions C04_optional_hasher_refused.
+
+(* unbounded (any schedule, thread count, size, fault): True is returned only together with the complete
+   correct digest string -- a cancelled or failed run cannot produce True with anything else *)
+Theorem C04_true_only_with_complete_string : forall c s hs,
+  reach c s -> cf_verify c = None -> yielded (cf_items c) = map RPiece hs -> cf_total c = zlen hs ->
+  s_result s = Some ResTrue -> sorted_hashes (s_hashes s) = hs.
+Proof. exact true_means_reference. Qed.
+Print Assumptions C04_true_only_with_complete_string.
 
 (* a stored result is only ever True-with-the-reference: result_ok is part of goodb *)
 Theorem C04_true_only_with_reference : forall c ref mf rs s,
